@@ -96,7 +96,7 @@ def generate(rng, tier):
     ops.sort(key=lambda o: o["t"])
     faults = {"max_delay_us": rng.choice([0, 2000, 50000]), "loop_delay_us": rng.choice([0, 500]),
               "dup_p": rng.choice([0.0, 0.1])}
-    return {"ops": ops, "faults": faults, "t_close": round(t_close, 6), "mode": mode,
+    return {"timer_slop_us": rng.choice([0, 0, 1, 50, 300]), "ops": ops, "faults": faults, "t_close": round(t_close, 6), "mode": mode,
             "close_step": rng.choice([None, None, rng.randrange(1, 60), rng.randrange(1, 400)]) if mode == "async" else None,
             "end": round(max(horizon, ta + 2.0), 6), "second_close": round(max(horizon, ta + 2.0) - 1.0, 6)}
 
@@ -119,7 +119,8 @@ class _SyncFuture:
 
 def execute(scenario, seed, overrides=None):
     out = runner.Outcome()
-    w = World(seed, FaultConfig(**scenario.get("faults", {})), overrides)
+    w = World(seed, FaultConfig(**scenario.get("faults", {})), overrides,
+              timer_slop=scenario.get("timer_slop_us", 0) / 1e6)
     stats = {"close_returned": 0, "pending_timers_at_close": 0, "queued_answers_at_close": 0, "deferred_at_close": 0,
              "browsers_at_close": 0, "lookups_pending_at_close": 0, "registrations_in_flight_at_close": 0,
              "sync_close": 0, "close_by_step": 0, "registered_at_close": 0}
